@@ -26,7 +26,6 @@ import random
 import re
 import types
 import typing
-from copy import deepcopy
 from ipaddress import ip_interface
 from typing import Annotated, Optional, Union
 
